@@ -135,6 +135,18 @@ class Check:
         """candidates: list of dicts from Acc.  make_replay(c) -> (kind, body, key) ; classify(c) -> finding id | None.
         Candidates matching the characteristic predicate of an open listed finding are replayed only `per_finding`
         times per finding; every other distinct candidate is replayed (up to max_confirm)."""
+        # self-test of the replay generator on every run: the script it writes must at least compile (a generator that only
+        # breaks when a counterexample turns up would turn a violation into a harness error)
+        try:
+            _k, _body, _key = make_replay({"kind": "selftest", "input": None})
+        except Exception:
+            _body = None
+        if _body is not None:
+            try:
+                compile(_body, "<replay generator self-test: %s>" % getattr(make_replay, "__module__", "?"), "exec")
+            except SyntaxError as e:
+                self.harness_error("replay generator of %s writes a script that does not compile: %s (line %s: %r)" % (
+                    getattr(make_replay, "__module__", "?"), e.msg, e.lineno, (e.text or "").strip()[:120]))
         seen = {}
         openids = {f["id"] for f in self.open_findings()}
         per = {}
